@@ -601,10 +601,21 @@ fn suspend(cfg: &Cfg) {
     use desync::scheduler::scheduler;
     let pool = cfg.pool();
     setup(pool);
-    let (resume_mode, with_sync) = (cfg.opt("resume", 0), cfg.opt("sync", 1) == 1);
+    let (resume_mode, with_sync, stale) = (cfg.opt("resume", 0), cfg.opt("sync", 1) == 1, cfg.opt("stale", 0) == 1);
     let w = World::new();
     let o = w.raw();
     let q = match &o { Obj::Raw(q, _) => q.clone(), _ => unreachable!() };
+    let g0 = Gate::new();
+    let mut env = None;
+    if stale {
+        // an earlier future operation whose waker is fired again (stale) at an arbitrary later time
+        w.future_desync(&o, "EARLY-FD", Body::gated(&g0)).detach();
+        let g = g0.clone();
+        env = Some(spawn(move || {
+            g.open();
+            g.fire_stale();
+        }));
+    }
     w.desync(&o, "BEFORE", Body::plain());
     let sop = w.rec.inv("SUSPEND", o.id(), Kind::Suspend);
     let susp = scheduler().suspend(&q);
@@ -650,6 +661,9 @@ fn suspend(cfg: &Cfg) {
     for (i, h) in hs.into_iter().enumerate() {
         join(h, &format!("sync{}", i));
     }
+    if let Some(e) = env {
+        join(e, "env");
+    }
     finish(&w, &[&o], pool);
     let all = w.rec.all();
     let start_of = |n: &str| all.iter().find(|r| r.name == n).and_then(|r| r.starts.first().cloned());
@@ -678,6 +692,7 @@ fn panic_contain(cfg: &Cfg) {
     let pool = cfg.pool();
     setup(pool);
     let ctx = cfg.get("ctx");
+    let self_wake = cfg.opt("selfwake", 0) == 1;
     let w = World::new();
     let bad = w.raw();
     let good = w.raw();
@@ -695,11 +710,18 @@ fn panic_contain(cfg: &Cfg) {
         }
         2 => {
             let (w1, b1) = (w.clone(), bad.clone());
-            let t = spawn(move || w1.future_desync(&b1, "BOOM-FD", Body::panicking()).wait_any());
+            let t = spawn(move || w1.future_desync(&b1, "BOOM-FD", Body { panic: true, self_wake, ..Body::default() }).wait_any());
+            let _ = t.join();
+        }
+        4 => {
+            // the panicking future is run by a thread draining the queue inside sync
+            w.future_desync(&bad, "BOOM-FD", Body { panic: true, self_wake, ..Body::default() }).detach();
+            let (w1, b1) = (w.clone(), bad.clone());
+            let t = spawn(move || { w1.sync(&b1, "S-behind-BOOM", Body::plain()); });
             let _ = t.join();
         }
         _ => {
-            w.future_desync(&bad, "BOOM-FD", Body::panicking()).detach();
+            w.future_desync(&bad, "BOOM-FD", Body { panic: true, self_wake, ..Body::default() }).detach();
         }
     }
     // concurrent healthy work while the panic unwinds
@@ -708,7 +730,7 @@ fn panic_contain(cfg: &Cfg) {
     let boom_ran = w.rec.all().iter().any(|r| r.name.starts_with("BOOM") && !r.starts.is_empty());
     if !boom_ran {
         // (only possible with no pool threads and nobody draining)
-        if pool > 0 || ctx == 1 || ctx == 2 {
+        if pool > 0 || ctx == 1 || ctx == 2 || ctx == 4 {
             rt::violation("STRANDED the panicking operation never ran".into());
         }
     } else {
@@ -767,7 +789,7 @@ fn panic_contain(cfg: &Cfg) {
     }
     // the recorder's universal oracles for the healthy ops only
     for r in w.rec.all() {
-        if r.name.starts_with("BOOM") {
+        if r.name.starts_with("BOOM") || r.name == "S-behind-BOOM" {
             continue;
         }
         if r.accepted == Some(true) && (r.starts.len() != 1 || r.ends.len() != 1) {
